@@ -451,7 +451,7 @@ Section Core.
     | TFilter =>
       do st <- advance st;
       do r <- filter st; let '(f, st) := r in
-      do r <- projection (precedence TFilter) st; let '(c, st) := r in
+      do r <- projection projection_precedence st; let '(c, st) := r in
       Ok (match c with None => NFilterCurrent f | Some x => NFilterAndProjectCurrent f x end, st)
     | TFlatten =>
       do st <- advance st;
@@ -546,7 +546,7 @@ Section Core.
       | TFilter =>
         do st <- advance st;
         do r <- filter st; let '(f, st) := r in
-        do r <- projection newPrec st; let '(rhs, st) := r in
+        do r <- projection projection_precedence st; let '(rhs, st) := r in
         Ok (Some (match node, rhs with
                   | None, None => NFilterCurrent f
                   | None, Some x => NFilterAndProjectCurrent f x
